@@ -1,4 +1,5 @@
 import SqlgrepModel.Model.Eval
+import SqlgrepModel.Lemmas.NumericOrder
 /-
 C03 (expression level) — the documented meaning of expressions, for ALL operands, environments and
 oracle tables. The model is `Sqlgrep.eval` (Model/Eval.lean), mirroring
@@ -341,5 +342,83 @@ example : eval {} {} (.inList false (.value (.text [97])) [.value (.int 1)]) = .
 example : eval {} {} (.compare .gt (.value (.int 2)) (.value (.real 0x3ff8000000000000))) = .ok (.bool true) := by rfl
 example : eval {} {} (.arith .add (.value (.int 9223372036854775807)) (.value (.int 1))) = .error .undefinedOperation := by rfl
 example : eval {} {} (.arith .div (.value (.int 1)) (.value (.int 0))) = .error .undefinedOperation := by rfl
+
+/-! ## NEW (review gap, comparison clause): "comparisons compare by value (numbers numerically, text by code
+point, timestamps by instant)"
+
+`Compare` evaluates to `applyCmp op (compareValues lv rv)` (`compare_is_order`); the theorems below say what
+that order IS on numbers, TEXT and TIMESTAMP. The order-theoretic laws of `compareValues` are in Props/C16.lean
+(`numbers_compare_by_value`, `where_order_is_total_on_numbers`, `where_order_agrees_with_group_order_same_type`). -/
+
+/-- the six comparison operators read over an order given by its three-way comparison -/
+theorem applyCmp_meaning (o : Ordering) :
+    applyCmp .eq o = decide (o = .eq) ∧ applyCmp .ne o = decide (o ≠ .eq) ∧
+    applyCmp .lt o = decide (o = .lt) ∧ applyCmp .le o = decide (o ≠ .gt) ∧
+    applyCmp .gt o = decide (o = .gt) ∧ applyCmp .ge o = decide (o ≠ .lt) := by
+  cases o <;> decide
+
+/-- a comparison of two non-NULL operands that need no coercion (same type, or INT with REAL) is the operator
+applied to the three-way result of the WHERE order `compareValues` -/
+theorem compare_is_order (op : CmpOp) (l r : Expr) (lv rv : Value)
+    (hl : eval O env l = .ok lv) (hr : eval O env r = .ok rv)
+    (hp : PlainComparable O lv rv) (nl : lv.isNull = false) (nr : rv.isNull = false) :
+    eval O env (.compare op l r) = .ok (.bool (applyCmp op (compareValues lv rv))) := by
+  unfold PlainComparable at hp
+  simp only [eval, hl, hr, bind, Outcome.bind, hp, nl, nr, pure]
+  simp
+
+theorem plainComparable_numbers (lv rv : Value) (hl : isNumber lv = true) (hr : isNumber rv = true) :
+    PlainComparable O lv rv := by
+  cases lv <;> simp [isNumber] at hl <;> cases rv <;> simp [isNumber] at hr <;>
+    simp [PlainComparable, prepCompare, coerceTs, Outcome.bind, Value.isNull, typesComparable, Value.valueType]
+
+/-- what an operator says about two exact values -/
+def holdsOn (op : CmpOp) (a b : Dy) : Bool :=
+  match op with
+  | .eq => decide (Dy.Eqv a b) | .ne => !decide (Dy.Eqv a b)
+  | .lt => decide (a < b) | .le => decide (a ≤ b)
+  | .gt => decide (b < a) | .ge => decide (b ≤ a)
+
+/-- **numbers compare numerically**: for operands that are INT or finite REAL in any mix, each of
+`= != < <= > >=` holds exactly when it holds between the exact numeric values (`numValue`: the integer, resp. the
+dyadic value `±mantissa·2^exponent` of the bit pattern; order `Dy.cmp` = order of the numbers, see
+Props/C16.lean `numbers_compare_by_value`, `value_order_laws`). Non-finite REAL operands: see
+`cmp_numeric_nonfinite`. -/
+theorem cmp_numeric_by_value (op : CmpOp) (l r : Expr) (lv rv : Value)
+    (hl : eval O env l = .ok lv) (hr : eval O env r = .ok rv)
+    (fl : isFiniteNumber lv = true) (fr : isFiniteNumber rv = true) :
+    eval O env (.compare op l r) = .ok (.bool (holdsOn op (numValue lv) (numValue rv))) := by
+  have nl : isNumber lv = true := by cases lv <;> simp_all [isFiniteNumber, isNumber]
+  have nr : isNumber rv = true := by cases rv <;> simp_all [isFiniteNumber, isNumber]
+  have il : lv.isNull = false := by cases lv <;> simp_all [isNumber, Value.isNull]
+  have ir : rv.isNull = false := by cases rv <;> simp_all [isNumber, Value.isNull]
+  rw [compare_is_order O env op l r lv rv hl hr (plainComparable_numbers O lv rv nl nr) il ir,
+    compareValues_eq_value_cmp lv rv fl fr]
+  congr 2
+  have hs := Dy.cmp_swap (numValue lv) (numValue rv)
+  cases op <;> cases h : Dy.cmp (numValue lv) (numValue rv) <;>
+    simp [holdsOn, applyCmp, Dy.lt_def, Dy.le_def, Dy.Eqv, hs, h, Ordering.swap]
+
+/-- numbers in general (±inf and NaN included): the comparison is the operator applied to the comparison of the
+integer keys `(numClass, numUnits)` — class −1 for −inf, 0 for INT and finite REAL, 1 for +inf, 2 for NaN; then the
+exact value in units of 2^-1074. So ±inf are below/above every finite number and every NaN is equal to every NaN
+and greater than every other number (as in the derived order of REAL). -/
+theorem cmp_numeric_nonfinite (op : CmpOp) (l r : Expr) (lv rv : Value)
+    (hl : eval O env l = .ok lv) (hr : eval O env r = .ok rv)
+    (nl : isNumber lv = true) (nr : isNumber rv = true) :
+    eval O env (.compare op l r) = .ok (.bool (applyCmp op
+      ((compare (numClass lv) (numClass rv)).then (compare (numUnits lv) (numUnits rv))))) := by
+  have il : lv.isNull = false := by cases lv <;> simp_all [isNumber, Value.isNull]
+  have ir : rv.isNull = false := by cases rv <;> simp_all [isNumber, Value.isNull]
+  rw [compare_is_order O env op l r lv rv hl hr (plainComparable_numbers O lv rv nl nr) il ir,
+    compareValues_eq_key lv rv nl nr]
+
+-- non-vacuity: 2 > 1.5; 2^53+1 (INT) > 2^53 (REAL) and not equal; 0 = -0.0
+example : eval {} {} (.compare .gt (.value (.int 2)) (.value (.real 0x3ff8000000000000))) = .ok (.bool true) ∧
+    isFiniteNumber (.real 0x3ff8000000000000) = true ∧ holdsOn .gt (numValue (.int 2)) (numValue (.real 0x3ff8000000000000)) = true := ⟨rfl, by decide, by decide⟩
+example : eval {} {} (.compare .eq (.value (.int (2 ^ 53 + 1))) (.value (.real 0x4340000000000000))) = .ok (.bool false) ∧
+    eval {} {} (.compare .gt (.value (.int (2 ^ 53 + 1))) (.value (.real 0x4340000000000000))) = .ok (.bool true) := ⟨rfl, rfl⟩
+example : holdsOn .eq (numValue (.real 0)) (numValue (.real 0x8000000000000000)) = true ∧
+    holdsOn .le (numValue (.real 1)) (numValue (.real 0x0010000000000000)) = true := by decide
 
 end Sqlgrep.Props.C03
